@@ -350,11 +350,13 @@ def fire_chain(I, d, result, start=0):
         if isinstance(result, DStub):
             if result.state == "pending":
                 d.state = "waiting"          # the chain is paused on the inner Deferred; nothing further runs now
+                d._next = i                  # resume with fire_chain(I, d, <result of the inner Deferred>, start=d._next)
                 return result, ran
             inner, _ = fire_chain(I, result, result.value if result.state == "succeeded" else result.value)
             result = inner
     d.state = "failed" if is_failure(result) else "succeeded"
     d.value = result
+    d._next = len(d.callbacks)
     return result, ran
 
 
